@@ -259,6 +259,7 @@ type decEncoderField struct {
 	ftype       fieldType
 	name        string
 	arrayLength byte
+	isArray     bool
 	index       int
 	isExtension bool
 }
@@ -299,11 +300,13 @@ func (rw *ReadWriter) Initialize() error {
 	for i := 0; i < rw.elemType.NumField(); i++ {
 		field := rw.elemType.Field(i)
 		arrayLength := byte(0)
+		isArray := false
 		goType := field.Type
 
 		// array
 		if goType.Kind() == reflect.Array {
 			arrayLength = byte(goType.Len())
+			isArray = true
 			goType = goType.Elem()
 		}
 
@@ -345,9 +348,10 @@ func (rw *ReadWriter) Initialize() error {
 			if goType.Kind() == reflect.String {
 				tagLen := field.Tag.Get("mavlen")
 
-				if len(tagLen) == 0 { // char
+				if len(tagLen) == 0 { // char: a scalar that occupies one byte, not an array
 					arrayLength = 1
 				} else { // string
+					isArray = true
 					slen, err := strconv.Atoi(tagLen)
 					if err != nil {
 						return fmt.Errorf("string has invalid length: %v", tagLen)
@@ -378,6 +382,7 @@ func (rw *ReadWriter) Initialize() error {
 				return fieldGoToDef(field.Name)
 			}(),
 			arrayLength: arrayLength,
+			isArray:     isArray,
 			index:       i,
 			isExtension: isExtension,
 		}
@@ -416,7 +421,8 @@ func (rw *ReadWriter) Initialize() error {
 			h.Write([]byte(fieldTypeString[f.ftype] + " "))
 			h.Write([]byte(f.name + " "))
 
-			if f.arrayLength > 0 {
+			// the array length is part of the CRC extra of arrays only
+			if f.isArray && f.arrayLength > 0 {
 				h.Write([]byte{f.arrayLength})
 			}
 		}
